@@ -253,6 +253,30 @@ Proof.
   do 6 (destruct k as [|k]; [vm_compute; repeat split; try discriminate; try lia; intros [? ?]; lia|]). lia.
 Qed.
 
+(* example: uriRemoveBaseUriMm in domain-root mode, source "s://h/" against base "s://h/a".  The path of the
+   source (one empty segment) is copied -- one node -- and uriFixEmptyTrailSegment releases that node again
+   before uriFixAmbiguity looks at the path: the reference is "/" without segments, the ledger is as before
+   the call.  With source "s://h//a" nothing is released: two nodes copied, one "." node added *)
+Example C14_remove_base_domain_root_trace :
+  let src := [115; 58; 47; 47; 104; 47]%N in
+  let src2 := [115; 58; 47; 47; 104; 47; 47; 97]%N in
+  let base := [115; 58; 47; 47; 104; 47; 97]%N in
+  let run (t : text) :=
+    match parse_m t (ms_init NoFault) with
+    | (MOk a, s1) =>
+      match parse_m base s1 with
+      | (MOk b, s2) =>
+        let '(rc, d, s3) := remove_base_m true a b s2 in
+        Some (rc, map sg_text (m_segs d), m_abs d, skipn (length (ms_trace s2)) (trace_of s3), live_count s3 - live_count s2)
+      | _ => None
+      end
+    | _ => None
+    end in
+  run src = Some (URI_SUCCESS, [], true, [EvMalloc SEG_SIZE true; EvFree SEG_SIZE], 0)
+  /\ run src2 = Some (URI_SUCCESS, [[46]; []; [97]]%N, true,
+                      [EvMalloc SEG_SIZE true; EvMalloc SEG_SIZE true; EvMalloc SEG_SIZE true], 3).
+Proof. vm_compute. split; reflexivity. Qed.
+
 (* ================================================================================================================
    The query functions (memory tier: Model/QueryM.v, proofs: Proofs/LedgerQuery.v): uriDissectQueryMallocExMm (with
    uriAppendQueryItem's unwinding and the release of the partial list) and uriComposeQueryMallocExMm.  As above: any
